@@ -19,7 +19,7 @@ theorem loopSpec_body_congr (cfg : ScanCfg) (verdict : Bool) (b1 b2 : Body α)
     funext b st i
     unfold loopStep
     simp only [h]
-  unfold loopSpec loopCore
+  unfold loopSpec loopCore loopCoreChecked loopCoreSimple
   simp only [hstep]
 
 /-- a scope function `carry ↦ carry` given by an `Option`-valued description, as a loop body without
